@@ -3,6 +3,7 @@ package props
 import (
 	"context"
 	"fmt"
+	"strings"
 	"sync"
 	"sync/atomic"
 	"time"
@@ -23,11 +24,13 @@ func init() {
 		ID: "C16",
 		Rule: "step machine against a reference: CombineContext(primary, n others incl. nil, n<=3) and ConflatedContext(n inputs, n<=4) for every subset pre-cancelled at construction and every order of later cancellations (complete for n<=3; cancel-func step at every position for Conflated), ChainAfterFunc for every pre-cancelled subset x cancel order, " +
 			"after each step the expected liveness is checked (synchronously for 'still live' and 'already cancelled at construction', within 5000 heartbeats for 'promptly cancelled'), values checked by distinct keys; simultaneous: both contexts of ChainAfterFunc (and all inputs of the combinators) cancelled by goroutines released from one barrier with chain.primary held so the two hooks overlap, 200 heartbeats of grace before the 'never twice' count is read. " +
-			"non-trivial = at least one cancellation step happened after construction; distinct = distinct (combinator, n, pre-cancelled mask, order) cases",
+			"during-construction: a cancellation lands while the combinator is being built: inputs wrapped in a pass-through Context whose k-th Err()/Done() consultation (k=1..6) cancels another input (or itself), for every (probed input, victim, k); plus 8-48 standard contexts cancelled by a second goroutine racing the constructor. Afterwards the remaining inputs are cancelled one by one: same liveness rules as above (a Conflated result is cancelled once ALL inputs are, a Combine result once ANY is, f exactly once). " +
+			"non-trivial = at least one cancellation step happened after construction (or, during-construction, the probe fired inside the constructor); distinct = distinct (combinator, n, pre-cancelled mask, order) cases",
 		Assumptions: []string{"standard library contexts and a non-standard Context implementation (manualCtx) are used as inputs", "ConflatedContext inputs are non-nil (the statement allows nil only for CombineContext's others)"},
 		Families: []core.Family{
 			{Name: "enumerated", N: core.TierN(3, 3), Solo: true, Run: c16Enumerated},
 			{Name: "simultaneous", N: core.TierN(80, 3200), Batch: 20, Run: c16Simultaneous},
+			{Name: "during-construction", N: core.TierN(240, 9600), Batch: 40, Run: c16DuringConstruction},
 		},
 	})
 }
@@ -446,4 +449,204 @@ func c16Simultaneous(c *core.Ctx) {
 		c.Nontrivial()
 	}
 	c.Sig("simul", c.Index, p.Hits("chain.primary") > 0)
+}
+
+// c16Probe is a pass-through Context: it adds nothing and hides nothing, but its k-th consultation (Err or Done) runs
+// fire first. Placed on an input of a combinator it puts a cancellation of another input at an exact point inside the
+// constructor (the client-side equivalent of a hook between two of its statements).
+type c16Probe struct {
+	context.Context
+	st *c16ProbeState
+}
+
+type c16ProbeState struct {
+	mu    sync.Mutex
+	calls int32
+	at    int32
+	fire  func()
+	fired bool
+	off   bool
+}
+
+func (p c16Probe) hit() {
+	st := p.st
+	st.mu.Lock()
+	st.calls++
+	if !st.off && !st.fired && st.calls == st.at {
+		st.fired = true
+		st.fire() // completes before any disarm() returns
+	}
+	st.mu.Unlock()
+}
+
+// disarm switches the probe off and reports whether it has fired (completely) before.
+func (st *c16ProbeState) disarm() bool {
+	st.mu.Lock()
+	defer st.mu.Unlock()
+	st.off = true
+	return st.fired
+}
+
+func (p c16Probe) Err() error            { p.hit(); return p.Context.Err() }
+func (p c16Probe) Done() <-chan struct{} { p.hit(); return p.Context.Done() }
+
+func c16DuringConstruction(c *core.Ctx) {
+	mode := []string{"conflated", "combine", "chain", "stress-conflated", "stress-combine"}[c.Index%5]
+	j := c.Index / 5
+	switch mode {
+	case "conflated", "combine":
+		n := 2 + j%2 // inputs (Conflated) / primary + others (Combine)
+		j /= 2
+		probed := j % n
+		j /= n
+		victim := j % n
+		j /= n
+		at := int32(1 + j%6)
+		desc := fmt.Sprintf("%s n=%d: consultation %d of input %d cancels input %d", mode, n, at, probed, victim)
+		ins := make([]*c16Input, n)
+		ctxs := make([]context.Context, n)
+		for i := range ins {
+			ins[i] = c16MakeInput(i, false, ctxKey(fmt.Sprintf("k%d", i)))
+			ctxs[i] = ins[i].ctx
+		}
+		defer func() {
+			for _, in := range ins {
+				in.cancel()
+			}
+		}()
+		st := &c16ProbeState{at: at, fire: func() { ins[victim].cancel() }}
+		ctxs[probed] = c16Probe{Context: ins[probed].ctx, st: st}
+		var res context.Context
+		if mode == "conflated" {
+			var cancel context.CancelFunc
+			res, cancel = bigbuff.ConflatedContext(ctxs...)
+			defer cancel()
+		} else {
+			res = bigbuff.CombineContext(ctxs[0], ctxs[1:]...)
+		}
+		inside := st.disarm() // the probe fired while the constructor was running (library goroutines that consult the input later find it switched off)
+		if inside {
+			ins[victim].done = true
+			c.Nontrivial()
+			c.R.WinHit++
+		} else {
+			c.R.WinMissed++
+		}
+		if mode == "combine" {
+			if inside {
+				if !awaitCtx(res) {
+					c.Violate("combine-not-cancelled", "an input was cancelled while CombineContext was being built, but the result stays live; %s", desc)
+					return
+				}
+			} else if res.Err() != nil {
+				c.Violate("combine-cancelled-early", "no input is cancelled but the result is; %s", desc)
+			}
+			for i := range ins {
+				ins[i].cancel()
+				if !awaitCtx(res) {
+					c.Violate("combine-not-cancelled", "input %d was cancelled but the result is still live; %s", i, desc)
+					return
+				}
+			}
+		} else {
+			if res.Err() != nil {
+				c.Violate("conflated-cancelled-early", "at least one input is live but the result is cancelled at construction; %s", desc)
+			}
+			order := c.Rng.Perm(n)
+			for step, i := range order {
+				ins[i].cancel()
+				ins[i].done = true
+				live := 0
+				for _, in := range ins {
+					if !in.done {
+						live++
+					}
+				}
+				if live == 0 {
+					if !awaitCtx(res) {
+						c.Violate("conflated-not-cancelled", "every input is cancelled (one of them while ConflatedContext was being built: %v) but the result stays live; %s", inside, desc)
+						return
+					}
+				} else if res.Err() != nil {
+					c.Violate("conflated-cancelled-early", "after step %d an input is still live but the result is cancelled; %s", step, desc)
+					return
+				}
+			}
+		}
+		c.Op("construct", 1)
+		c.Sig(mode, n, probed, victim, at, inside)
+	case "chain":
+		probed := j % 2
+		j /= 2
+		victim := j % 2
+		j /= 2
+		at := int32(1 + j%6)
+		desc := fmt.Sprintf("ChainAfterFunc: consultation %d of context %d cancels context %d", at, probed, victim)
+		ins := []*c16Input{c16MakeInput(0, false, "a"), c16MakeInput(1, false, "b")}
+		defer ins[0].cancel()
+		defer ins[1].cancel()
+		ctxs := []context.Context{ins[0].ctx, ins[1].ctx}
+		st := &c16ProbeState{at: at, fire: func() { ins[victim].cancel() }}
+		ctxs[probed] = c16Probe{Context: ins[probed].ctx, st: st}
+		calls := new(atomic.Int32)
+		bigbuff.ChainAfterFunc(ctxs[0], ctxs[1], func() { calls.Add(1) })
+		inside := st.disarm()
+		if inside {
+			c.Nontrivial()
+			c.R.WinHit++
+		} else {
+			c.R.WinMissed++
+			if calls.Load() != 0 {
+				c.Violate("chain-called-early", "f was called although neither context is cancelled; %s", desc)
+			}
+			ins[c.Rng.IntN(2)].cancel()
+		}
+		if !core.WaitUntil(c16Bound, func() bool { return calls.Load() >= 1 }) {
+			c.Violate("chain-not-called", "a context was cancelled (while ChainAfterFunc was registering: %v) but f was never called; %s", inside, desc)
+			return
+		}
+		ins[0].cancel()
+		ins[1].cancel()
+		c16LateChecks = append(c16LateChecks, c16Late{calls, desc})
+		c16FlushLate(c)
+		c.Op("construct", 1)
+		c.Sig(mode, probed, victim, at, inside)
+	default:
+		// standard contexts only: a second goroutine cancels every input while the constructor runs
+		n := 8 + c.Rng.IntN(41)
+		desc := fmt.Sprintf("%s n=%d", mode, n)
+		ins := make([]*c16Input, n)
+		ctxs := make([]context.Context, n)
+		for i := range ins {
+			ins[i] = c16MakeInput(i, false, ctxKey(fmt.Sprintf("k%d", i)))
+			ctxs[i] = ins[i].ctx
+		}
+		start := make(chan struct{})
+		order := c.Rng.Perm(n)
+		spinBefore := c.Rng.IntN(400)
+		cancelled := core.Go(func() {
+			<-start
+			spin(spinBefore)
+			for _, i := range order {
+				ins[i].cancel()
+			}
+		})
+		close(start)
+		var res context.Context
+		if mode == "stress-conflated" {
+			var cancel context.CancelFunc
+			res, cancel = bigbuff.ConflatedContext(ctxs...)
+			defer cancel()
+		} else {
+			res = bigbuff.CombineContext(ctxs[0], ctxs[1:]...)
+		}
+		<-cancelled
+		if !awaitCtx(res) {
+			c.Violate(strings.TrimPrefix(mode, "stress-")+"-not-cancelled", "every input has been cancelled (by a goroutine racing the constructor) but the result stays live; %s", desc)
+			return
+		}
+		c.Op("construct", 1)
+		c.Nontrivial()
+		c.Sig(mode, n)
+	}
 }
